@@ -395,7 +395,10 @@ var c09HSpec = &HSpec{ID: "C09",
 func shapeOf(m protoreflect.Message) string {
 	var sb strings.Builder
 	var fields []protoreflect.FieldDescriptor
-	m.Range(func(fd protoreflect.FieldDescriptor, _ protoreflect.Value) bool { fields = append(fields, fd); return true })
+	m.Range(func(fd protoreflect.FieldDescriptor, _ protoreflect.Value) bool {
+		fields = append(fields, fd)
+		return true
+	})
 	sort.Slice(fields, func(i, j int) bool { return fields[i].Number() < fields[j].Number() })
 	sb.WriteString("{")
 	for _, fd := range fields {
@@ -406,7 +409,10 @@ func shapeOf(m protoreflect.Message) string {
 			fmt.Fprintf(&sb, "#%d", min(v.Map().Len(), 2))
 			if fd.MapValue().Kind() == protoreflect.MessageKind {
 				var inner []string
-				v.Map().Range(func(_ protoreflect.MapKey, mv protoreflect.Value) bool { inner = append(inner, shapeOf(mv.Message())); return true })
+				v.Map().Range(func(_ protoreflect.MapKey, mv protoreflect.Value) bool {
+					inner = append(inner, shapeOf(mv.Message()))
+					return true
+				})
 				sort.Strings(inner)
 				if len(inner) > 0 {
 					sb.WriteString(inner[0])
